@@ -169,7 +169,7 @@ func tryReplay(e *Engine, prop string, o *Obl) (bool, string) {
 		// no model: try the query with quantified hypotheses dropped. A model of the relaxed query is only a
 		// CANDIDATE input; nothing is believed unless the driver confirms it on the real code.
 		q := preamble + o.relaxedQuery() + "\n(check-sat)\n(get-value (" + strings.Join(rs.Terms, " ") + "))\n"
-		f := filepath.Join(e.outDir, "smt", sanitizeFile(o.Name)+".relaxed.smt2")
+		f := filepath.Join(e.smtDir, sanitizeFile(o.Name)+".relaxed.smt2")
 		os.WriteFile(f, []byte(q), 0o644)
 		out, _ := exec.Command("z3-new", "-T:20", f).CombinedOutput()
 		if strings.HasPrefix(strings.TrimSpace(string(out)), "sat") {
@@ -189,7 +189,7 @@ func tryReplay(e *Engine, prop string, o *Obl) (bool, string) {
 				still = append(still, "(assert (= "+name+" |now@0|))")
 			}
 		}
-		f := filepath.Join(e.outDir, "smt", sanitizeFile(o.Name)+".replay.smt2")
+		f := filepath.Join(e.smtDir, sanitizeFile(o.Name)+".replay.smt2")
 		var out []byte
 	attempts:
 		for _, extra := range []string{strings.Join(still, "\n"), ""} {
